@@ -8,10 +8,13 @@ package main
 //     tab, a second carriage return, empty trailing fields, a '#' further right - is the codec's to interpret or
 //     to reject. The family below decorates 18 base lines (record lines of several types, a comment, lines of
 //     length 0, 1 and 2, a rejected line) with every combination of 6 prefixes and 11 suffixes of white space /
-//     separators and puts each decorated line alone in a file, between two ordinary lines, and last in a file
-//     without a final newline.
+//     separators and puts each decorated line alone in a file and - the lines with a prefix or a suffix only -
+//     between two ordinary lines and last in a file without a final newline.
 // (d) range-heavy: files whose subnet lines give one map more than 100 range points / several maps with many
-//     points (the accumulator's trailing records; inputs (a) have at most 5 per map, inputs (b) none).
+//     points (the accumulator's trailing records; inputs (a) have at most 5 per map, inputs (b) none). The
+//     compilers take these records from SubnetRanger.MarshalMap (one goroutine per map, one channel send per
+//     map); the chunked text scanner SubnetRanger.OpenScanner is not on any compiler's path (it serves
+//     Codec.Preprocess and Accum.MarshalText, see C09 and its schedules part).
 // (e) medium files of 9..35 and 64 lines, i.e. around the capacity workers*10 of the parser's line channel for 1-3
 //     workers, without and with rejected lines (first line, first three lines, middle, last): on the error path
 //     the scanner goroutine is left blocked on a full channel, which must not block the compilation.
@@ -86,6 +89,9 @@ func lexFiles() []lexFile {
 			for s := range lexSuffixes {
 				line := lexPrefixes[p].Text + lexBases[b].Text + lexSuffixes[s].Text
 				for c := range lexContexts {
+					if c != 0 && p != 0 && s != 0 {
+						continue // prefix and suffix together: only with the line alone in the file
+					}
 					out = append(out, lexFile{b, p, s, c, lexName(b, p, s, c), []byte(lexText(c, line)), line})
 				}
 			}
@@ -210,20 +216,22 @@ func extraInputs(r *vlib.Run, p *pool) (compute func(), record func()) {
 
 	var jobs []execJob
 	// (c): the parser is shared by all compilers, so CDB (cheap) carries the family: all three worker counts on
-	// the files with the line alone, one (rotating) on the others; one RocksDB setting, rotating through the 54
-	// of the grid, on every second file with the line alone
+	// the files with the line alone and a prefix or a suffix only, one (rotating) on the others; one RocksDB
+	// setting, rotating through the 54 of the grid, on every third file with the line alone
 	nRdb, nAlone := 0, 0
 	for i, f := range lex {
 		var sets []setting
-		if f.Ctx == 0 {
+		if f.Ctx == 0 && (f.Pre == 0 || f.Suf == 0) {
 			sets = append(sets, cdb3...)
-			if nAlone%2 == 0 {
+		} else {
+			sets = append(sets, cdb3[(i+f.Pre+f.Ctx)%3])
+		}
+		if f.Ctx == 0 {
+			if nAlone%3 == 0 {
 				sets = append(sets, rdbSetting(nRdb))
 				nRdb++
 			}
 			nAlone++
-		} else {
-			sets = append(sets, cdb3[(i/len(lexContexts)+f.Ctx)%3])
 		}
 		jobs = append(jobs, execJob{ID: len(jobs), Text: f.Text, Settings: sets})
 	}
@@ -411,8 +419,8 @@ func extraInputs(r *vlib.Run, p *pool) (compute func(), record func()) {
 			bn = append(bn, fmt.Sprintf("%s=%q", b.Name, b.Text))
 		}
 		r.Set("lexical_bases", bn)
-		addRule(fmt.Sprintf("(c) lexical: %d base lines (A with and without TTL / location / empty trailing fields, TXT with an inner blank and an inner '#', subnet with and without map, map assignment, SOA, comment, '#', the empty line, 1- and 2-byte lines, a rejected 1- and 2-byte line) x %d prefixes (none, SP, SPSP, TAB, SP TAB, TAB SP) x %d suffixes (none, SP, SPSP, TAB, CR i.e. CRLF, SP CR, CR CR, FF, NBSP, ',', ',,') x %d contexts (alone; between two ordinary lines; last line without final newline) = %d files, compiled by CDB (the parser is common to all compilers) with 1-3 workers when the line is alone, with one worker count (rotating) otherwise, and %d of the files with the line alone also by one RocksDB setting rotating through the 54 of the grid. The reference gets the line exactly as the file has it: split at newlines, one CR before the newline dropped, leading spaces dropped, lines of <2 bytes and lines starting with '#' skipped - nothing else is removed. Non-trivial = stripping the line's surrounding white space would change the reference (%d files). Reported: per failure kind, the minimal decorations (no file with one decoration character less, or with the line alone, fails in the same way). (d) range-heavy: %d files with up to %d range points in one map and up to 5 maps; CDB 1-3 + builder and batches (size 1, 50, default) for both key layouts. (e) %d files of 9-13, 19-24, 29-35 and 64 lines (around the capacity workers*10 of the parser's line channel) with no rejected line or rejected lines first / first three / middle / last; CDB 1-3 + one RocksDB batch setting (workers 1-3, key layout, batch size and parallelism rotating).",
-			len(lexBases), len(lexPrefixes), len(lexSuffixes), len(lexContexts), len(lex), nRdb, lexNontrivial, len(heavy), heavyMaxPoints, len(medium)))
+		addRule(fmt.Sprintf("(c) lexical: %d base lines (A with and without TTL / location / empty trailing fields, TXT with an inner blank and an inner '#', subnet with and without map, map assignment, SOA, comment, '#', the empty line, 1- and 2-byte lines, a rejected 1- and 2-byte line) x %d prefixes (none, SP, SPSP, TAB, SP TAB, TAB SP) x %d suffixes (none, SP, SPSP, TAB, CR i.e. CRLF, SP CR, CR CR, FF, NBSP, ',', ',,') with the line alone in the file, and every line with a prefix or a suffix only also in %d more contexts (between two ordinary lines; last line without final newline) = %d files, compiled by CDB (the parser is common to all compilers) with 1-3 workers when the line is alone and has a prefix or a suffix only, with one worker count (rotating) otherwise, and %d of the files with the line alone also by one RocksDB setting rotating through the 54 of the grid. The reference gets the line exactly as the file has it: split at newlines, one CR before the newline dropped, leading spaces dropped, lines of <2 bytes and lines starting with '#' skipped - nothing else is removed. Non-trivial = stripping the line's surrounding white space would change the reference (%d files). Reported: per failure kind, the minimal decorations (no file with one decoration character less, or with the line alone, fails in the same way). (d) range-heavy: %d files with up to %d range points in one map and up to 5 maps; CDB 1-3 + builder and batches (size 1, 50, default) for both key layouts. (e) %d files of 9-13, 19-24, 29-35 and 64 lines (around the capacity workers*10 of the parser's line channel) with no rejected line or rejected lines first / first three / middle / last; CDB 1-3 + one RocksDB batch setting (workers 1-3, key layout, batch size and parallelism rotating).",
+			len(lexBases), len(lexPrefixes), len(lexSuffixes), len(lexContexts)-1, len(lex), nRdb, lexNontrivial, len(heavy), heavyMaxPoints, len(medium)))
 	}
 	return compute, record
 }
